@@ -80,7 +80,12 @@ def gen_closed(r, tier):
         if kind in ("directm", "direct") and r.chance(0.35):
             a0 = r.range(0, 12)
             fault = (a0, a0 + r.range(1, 60), r.pick(["refused", "ignored"]))
+        # a competing writer (BIOS, another daemon) that rewrites the register after every one of fan2go's writes: the
+        # read-back never matches, the REQUEST must settle all the same (seed C04g: every mismatch reset the PID loop)
+        rival = r.range(0, 255) if (not fault and r.chance(0.25)) else None
         for k in range(n):
+            if rival is not None:
+                ops.append(f"w.dev pwm={rival}")
             if fault and k == fault[0]:
                 ops.append(f"w.dev pwmwrite={fault[2]}")
             if fault and k == fault[1]:
